@@ -676,8 +676,195 @@ class Engine:
                     return V("device-rejected-command", bad[0][1], step=step, device=d.hostname, command=bad[0][3])
         return None
 
+    # ------------------------------------------------------------------ C09
+    @staticmethod
+    def _match_pat(pat, row):
+        pw, rw = pat.split(), row.split()
+        tail = bool(pw) and pw[-1] == "~"
+        if tail:
+            pw = pw[:-1]
+            if len(rw) < len(pw) + 1:
+                return False
+        elif len(rw) < len(pw):
+            return False
+        return all(p == "*" or p == w for p, w in zip(pw, rw))
+
+    def _ref_deploy_rule(self, world, path):
+        """reference semantics of deploy-rule selection (as the shipped rulebooks rely on it): descend along the
+        path through matching rules; a level that matches nothing is skipped; default when the chain ends early"""
+        rules = [spec for (_f, _r, spec) in world.deploy_specs]
+        if world.wrapper_rule:
+            rules = rules + [{"pat": world.wrapper_rule[0], "timeout": world.wrapper_rule[1], "dialogs": [], "children": []}]
+        for depth, row in enumerate(path):
+            hit = None
+            for spec in rules:
+                if self._match_pat(spec["pat"], row):
+                    hit = spec
+                    break
+            if hit is None:
+                continue
+            if depth == len(path) - 1:
+                return hit
+            rules = [sp for (_f, _r, sp) in hit["children"]]
+            if not rules:
+                return None
+        return None
+
     def _run_c09(self, ch, world, steps_log):
-        raise HarnessError("C09 mode not built")
+        rb = world.rb
+        nsteps = 1 + ch.draw(3, "nsteps")
+        for step in range(nsteps):
+            for d in world.inv:
+                prev = world.desired[d.id]
+                world.desired[d.id] = W.gen_tree(ch, rb) if not prev or ch.draw(3, "fresh") == 0 else W.mutate_tree(ch, rb, prev)
+            dont_commit = ch.draw(3, "dont-commit") == 0
+            world.fetch_plan, world.deploy_plan = {}, {}
+            # 1. what `annet patch` shows for this world state
+            ok, fail = self.show_patch(world)
+            if fail:
+                k = sorted(fail, key=repr)[0]
+                raise AnnetCrashed(fail[k].__cause__ or fail[k]) if not hasattr(fail[k], "orig_exc_cls") else \
+                    AnnetCrashed(RuntimeError("annet patch failed: %r" % fail[k]))
+            shown = {}
+            for dev_id, items in ok.items():
+                texts = [t for (label, t, _e) in items if str(label).endswith(".patch")]
+                shown[dev_id] = parse_shown_patch(texts[0]) if texts else []
+            # 2. device behaviour conforming to the reference deploy rules: latency just below the rule's timeout,
+            #    questions taken from the rule's dialogs
+            slow = ch.draw(2, "slow-device") == 1
+            ask = ch.draw(2, "asking-device") == 1
+            stacks = {}
+
+            def plan_for(dev_id):
+                def path_of(k, c):
+                    st = stacks.setdefault(dev_id, {"stack": [], "k": -1})
+                    if st["k"] != k:
+                        lvl = getattr(c, "level", 0)
+                        st["stack"] = st["stack"][:lvl] + [c.cmd]
+                        st["k"] = k
+                    return tuple(st["stack"])
+
+                def latency(k, c):
+                    spec = self._ref_deploy_rule(world, path_of(k, c))
+                    t = spec["timeout"] if spec else 30
+                    return float(t) - 1.0 if slow and (k * 7 + len(c.cmd)) % 3 == 0 else 0.01
+
+                def question(k, c):
+                    spec = self._ref_deploy_rule(world, path_of(k, c))
+                    if not ask or not spec or not spec["dialogs"]:
+                        return None
+                    qt = spec["dialogs"][(k + len(c.cmd)) % len(spec["dialogs"])][0]
+                    return "Really do it?" if qt.startswith("/") else "Warning. " + qt
+                return {"latency": latency, "question": question}
+            for d in world.inv:
+                world.deploy_plan[d.id] = plan_for(d.id)
+            pre = {d.id: copy.deepcopy(world.dev[d.id].running) for d in world.inv}
+            for dv in world.dev.values():
+                dv.anomalies, dv.removals, dv.commits = [], [], 0
+            rc, deployer, out = self.deploy(world, dont_commit=dont_commit, no_check_diff=True)
+            steps_log.append({"step": step, "rc": rc, "dont_commit": dont_commit, "slow": slow, "asking": ask,
+                              "commands": sum(len(v) for v in world.received.values())})
+            before, after = W.expected_wrapper(world.hw, not dont_commit, True)
+            t = W.session_table(world.hw)
+            # cmd_lines shown at the confirmation prompt, split per host
+            prompt = {}
+            cur = None
+            for line in deployer.cmd_lines:
+                if line.startswith("= ") and line.endswith(" "):
+                    cur = line[2:-1]
+                    prompt[cur] = []
+                elif cur is not None and line != "":
+                    prompt[cur].append(line)
+            for d in world.inv:
+                got = world.received.get(d.id)
+                sh = shown.get(d.id, [])
+                if got is None:
+                    if sh:
+                        return V("shown-patch-not-sent", "nothing-sent", step=step, device=d.hostname, shown=sh)
+                    continue
+                world.probe("deploy_stream_compared")
+                rows = [(lv, cmd) for (lv, cmd, _t, _q) in got]
+                if rows[:len(before)] != [(0, x) for x in before] or \
+                        rows[len(rows) - len(after):] != [(0, x) for x in after] or len(rows) < len(before) + len(after):
+                    key = "commit-under-dont-commit" if (dont_commit and t["commit"] and (0, t["commit"]) in rows) else "wrapper"
+                    return V("wrapper-mismatch", key, step=step, device=d.hostname, dont_commit=dont_commit,
+                             want_before=before, want_after=after, received=rows)
+                body = rows[len(before):len(rows) - len(after)]
+                if dont_commit and t["commit"] and any(cmd == t["commit"] and lv == 0 for lv, cmd in body):
+                    return V("wrapper-mismatch", "commit-under-dont-commit", step=step, device=d.hostname, received=rows)
+                if body != sh:
+                    return V("stream-differs-from-shown-patch", "body", step=step, device=d.hostname, shown=sh, sent=body)
+                if [cmd for _lv, cmd in body] != prompt.get(d.hostname, []):
+                    return V("stream-differs-from-prompt", "cmd-lines", step=step, device=d.hostname,
+                             prompt=prompt.get(d.hostname), sent=body)
+                # timeouts and dialogs per command
+                stack = []
+                for n, (lv, cmd, tmo, qs) in enumerate(got):
+                    if n < len(before) or n >= len(got) - len(after):
+                        path = (cmd,)
+                    else:
+                        stack = stack[:lv] + [cmd]
+                        path = tuple(stack)
+                    spec = self._ref_deploy_rule(world, path)
+                    want_t = spec["timeout"] if spec else 30
+                    want_q = [(q[1:-1] if q.startswith("/") and q.endswith("/") else q, a, q.startswith("/") and q.endswith("/"))
+                              for q, a in (spec["dialogs"] if spec else [])]
+                    if tmo != want_t:
+                        return V("wrong-timeout", "timeout", step=step, device=d.hostname, path=list(path), got=tmo, want=want_t)
+                    if [tuple(x) for x in qs] != want_q:
+                        return V("wrong-dialogs", "dialogs", step=step, device=d.hostname, path=list(path), got=qs, want=want_q)
+                    if spec:
+                        world.probe("command_matched_a_deploy_rule")
+                res = None
+                dv = world.dev[d.id]
+                if rc & 1:
+                    ev = [e for e in world.events if e[3] in ("timeout", "no-answer") and e[4] == d.hostname]
+                    if ev:
+                        return V("conforming-device-failed-deploy", ev[-1][3], step=step, device=d.hostname, event=list(ev[-1][3:]))
+                if dont_commit and dv.session["two_stage"] and W.norm(dv.running, rb) != W.norm(pre[d.id], rb):
+                    return V("uncommitted-change-visible", "dont-commit-two-stage", step=step, device=d.hostname)
+                if dont_commit and dv.commits:
+                    return V("wrapper-mismatch", "commit-under-dont-commit", step=step, device=d.hostname, received=rows)
+                bad = [a for a in dv.anomalies if a[1] in ("nesting-mismatch", "exit-at-top-level")]
+                if bad:
+                    return V("block-exit-misplaced", bad[0][1], step=step, device=d.hostname, command=bad[0][3], received=rows)
+        return self._direct_patchtree_check(ch, world)
+
+    def _direct_patchtree_check(self, ch, world):
+        """synthetic PatchTrees (distinct sibling rows, depth <= 4) through the same seam functions"""
+        from annet.annlib.patching import PatchTree
+        from annet import deploy as ann_deploy
+        words = ["a1", "b2", "c3", "d4", "e5", "f6"]
+
+        def build(depth):
+            t = PatchTree()
+            used = set()
+            for _ in range(1 + ch.draw(4, "pt-n")):
+                row = "%s %s" % (words[ch.draw(len(words), "pt-w")], W.KEYS[ch.draw(len(W.KEYS), "pt-k")])
+                if row in used:
+                    continue
+                used.add(row)
+                if depth < 4 and ch.draw(3, "pt-block") == 0:
+                    t.add_block(row, build(depth + 1))
+                else:
+                    t.add(row, {})
+            return t
+        pt = build(1)
+        fmt = world.vendor.make_formatter(indent="  ")
+        shown = parse_shown_patch(fmt.patch(pt))
+        paths = world.vendor.make_formatter(indent="").cmd_paths(pt)
+        flat = [(len(p) - 1, p[-1]) for p in paths]
+        for dc in (True, False):
+            cl = ann_deploy.apply_deploy_rulebook(world.hw, paths, do_finalize=True, do_commit=dc)
+            before, after = W.expected_wrapper(world.hw, dc, True)
+            rows = [(getattr(c, "level", 0), c.cmd) for c in cl]
+            body = rows[len(before):len(rows) - len(after)]
+            if not (shown == flat == body):
+                return V("stream-differs-from-shown-patch", "direct-patchtree", shown=shown, cmd_paths=flat, body=body, do_commit=dc)
+            if rows[:len(before)] != [(0, x) for x in before] or rows[len(rows) - len(after):] != [(0, x) for x in after]:
+                return V("wrapper-mismatch", "direct-patchtree", received=rows, want_before=before, want_after=after, do_commit=dc)
+        world.probe("direct_patchtree_checked")
+        return None
 
 
 def V(clause, key, **detail):
@@ -709,5 +896,11 @@ RULES = {
             "by level (independent matcher over the ownership tables), no unmanaged line was touched, no line covered only by "
             "cant_delete rules was removed (judged on removal events). Non-trivial = >=1 command delivered. Distinct = SHA-256 "
             "over (vendor, step outcomes, fault positions, final device configs)."),
-    "C09": "filled by the C09 mode",
+    "C09": ("one run = 1-3 seeded deploys through the real `annet patch` and `annet deploy` front ends on a synthetic patching + "
+            "ordering + DEPLOY rulebook (timeouts, dialogs, nested rules, sibling rules with disjoint languages) with dont_commit "
+            "drawn, against a device that behaves per the reference deploy rules on the virtual clock (latency just below the "
+            "matching rule's timeout, questions from its dialogs), plus one directly built PatchTree (distinct sibling rows, depth "
+            "<= 4) through formatter.patch / cmd_paths / apply_deploy_rulebook. The stream received by the driver must equal "
+            "wrapper-before + the shown patch + wrapper-after. Non-trivial = >=1 command delivered. Distinct = SHA-256 over "
+            "(vendor, step outcomes, final device configs)."),
 }
